@@ -217,3 +217,43 @@ contract("CountMinSketch.__load@path", contexts=_CMS_ALL, properties=["C05", "C0
          requires=_PEXISTS + _onpath(list(_pb.requires)), modifies=list(_pb.modifies), ensures=_onpath(list(_pb.ensures)))
 contract("CountMinSketch.__load", contexts=_CMS_ALL, properties=["C05", "C06"],
          params={"file": "mmap"}, requires=list(_pb.requires), modifies=list(_pb.modifies), ensures=list(_pb.ensures))
+
+# constructors with filepath= (the Bloom family): _load_init takes the path branch when the file exists
+_LI_PARAMS = {"filepath": "key", "hash_function": "opt[hashfunc]", "hex_string": "none", "est_elements": "opt[int]",
+              "false_positive_rate": "opt[float]"}
+
+
+def _onfp(clauses):
+    return [(n, _re.sub(r"\bfile\b", "filepath", t)) for n, t in clauses]
+
+
+contract("BloomFilter._load_init@path", contexts=["BloomFilter"], properties=["C05", "C01"],
+         params=_LI_PARAMS, requires=_onfp(_PEXISTS + _onpath(_LOAD_REQ)) + [("exists_as_given", "file_exists(filepath)")],
+         modifies=_BMODS, ensures=_onfp(_onpath(_LOADED)))
+contract("CountingBloomFilter._load_init@path", contexts=["CountingBloomFilter"], properties=["C05", "C08"],
+         params=_LI_PARAMS, requires=_onfp(_PEXISTS + _onpath(_CLOAD_REQ[:3])) + [("exists_as_given", "file_exists(filepath)")],
+         modifies=_BMODS + ["self._bits_per_elm", "self._type", "self._typecode", "self._filepath"],
+         ensures=_onfp(_onpath(_CLOADED)) + [("counting", "self._typecode == 'I' and self._bits_per_elm == 1.0")])
+contract("BloomFilter.__init__@pathC", contexts=["CountingBloomFilter"], properties=["C05", "C08"],
+         params={"est_elements": "opt[int]", "false_positive_rate": "opt[float]", "filepath": "key", "hex_string": "none",
+                 "hash_function": "opt[hashfunc]"},
+         requires=_onfp(_PEXISTS + _onpath(_CLOAD_REQ[:3])) + [("exists_as_given", "file_exists(filepath)")],
+         modifies=["self"], ensures=_onfp(_onpath(_CLOADED)) + [("counting", "self._typecode == 'I' and self._on_disk == False")])
+
+_INITP = {"est_elements": "opt[int]", "false_positive_rate": "opt[float]", "filepath": "key", "hex_string": "none",
+          "hash_function": "opt[hashfunc]"}
+contract("BloomFilter.__init__@path", contexts=["BloomFilter"], properties=["C05", "C01"],
+         params=_INITP, requires=_onfp(_PEXISTS + _onpath(_LOAD_REQ[:3])) + [("exists_as_given", "file_exists(filepath)")],
+         modifies=["self"], ensures=_onfp(_onpath(_LOADED)) + [("in_memory", "self._on_disk == False and self._typecode == 'B'")])
+contract("CountingBloomFilter.__init__@path", contexts=["CountingBloomFilter"], properties=["C05", "C08"],
+         params=_INITP, requires=_onfp(_PEXISTS + _onpath(_CLOAD_REQ[:3])) + [("exists_as_given", "file_exists(filepath)")],
+         modifies=["self"], ensures=_onfp(_onpath(_CLOADED)) + [("counting", "self._typecode == 'I' and self._on_disk == False")])
+
+_CMSP = {"width": "opt[int]", "depth": "opt[int]", "confidence": "opt[float]", "error_rate": "opt[float]", "filepath": "key",
+         "hash_function": "opt[hashfunc]"}
+contract("CountMinSketch.__init__@path", contexts=["CountMinSketch"], properties=["C05", "C06"],
+         params=_CMSP,
+         requires=_onfp(_PEXISTS + _onpath([r for r in _pb.requires if r[0] != "query_mode"])) + [("exists_as_given", "file_exists(filepath)")],
+         modifies=["self"],
+         ensures=_onfp(_onpath(list(_pb.ensures))) + [("min_mode", "is_min_mode(self)"),
+                  ("hash_function_kept_or_default", "self._hash_function == (hash_function if hash_function is not None else default_fnv_1a)")])
